@@ -32,7 +32,12 @@ extern "C" {
     fn riti_config_set_smart_quote(ptr: *mut Config, option: bool);
 }
 
-pub const REPO: &str = "/repo";
+/// The riti tree under test: /repo, or `VERIF_REPO` (a scratch copy with a seeded change applied,
+/// used only by the seeding tools, never by the registered commands).
+pub fn repo_root() -> &'static str {
+    static ROOT: std::sync::OnceLock<String> = std::sync::OnceLock::new();
+    ROOT.get_or_init(|| std::env::var("VERIF_REPO").ok().filter(|s| !s.is_empty()).unwrap_or_else(|| "/repo".to_string()))
+}
 /// Root of the verification tree: `VERIF_ROOT` (exported by bin/check: the directory the check was
 /// started from, so that a snapshot run keeps its evidence, replays and scratch to itself), else /verif.
 pub fn verif_root() -> &'static str {
@@ -42,10 +47,10 @@ pub fn verif_root() -> &'static str {
 pub const PHONETIC: &str = "avro_phonetic";
 
 pub fn probhat() -> String {
-    format!("{}/data/Probhat.json", REPO)
+    format!("{}/data/Probhat.json", repo_root())
 }
 pub fn real_db() -> String {
-    format!("{}/data", REPO)
+    format!("{}/data", repo_root())
 }
 pub fn fixture(name: &str) -> String {
     format!("{}/fixtures/{}", verif_root(), name)
@@ -299,7 +304,7 @@ pub fn install_panic_hook() {
             .rsplit_once("/registry/src/")
             .map(|(_, r)| r.split_once('/').map(|(_, r)| r.to_string()).unwrap_or(r.to_string()))
             .unwrap_or(file);
-        let file = file.strip_prefix("/repo/").map(|s| s.to_string()).unwrap_or(file);
+        let file = file.strip_prefix(&format!("{}/", repo_root())).map(|s| s.to_string()).unwrap_or(file);
         // first line of the message only, and strip volatile numbers inside it
         let msg = msg.lines().next().unwrap_or("").to_string();
         LAST_PANIC.with(|p| *p.borrow_mut() = Some(Panic { msg, file, line }));
